@@ -122,6 +122,28 @@ def run(chk):
         open(p, "wb").write(data)
         A = {(n, 0): v for n, v in doc.objects.items()}
         inputs.append((name, p, "generated", A, dict(doc.trailer)))
+    # more than 100 intermediate /Pages nodes that each carry direct inheritable attributes: linearizing makes every one of
+    # them an indirect object while pushing it down, i.e. more new objects than the writer's tables were sized for
+    def many_nodes(K):
+        d = pdfgen.Doc()
+        cat, pages = d.add(None), d.add(None)
+        font = d.add(pdfgen.D(Type=pdfgen.N("Font"), Subtype=pdfgen.N("Type1"), BaseFont=pdfgen.N("Helvetica")))
+        kids = []
+        for k in range(K):
+            node = d.add(None)
+            cs = d.add(Stream({}, b"BT /F1 12 Tf 72 720 Td (N%d) Tj ET\n" % k))
+            pg = d.add(pdfgen.D(Type=pdfgen.N("Page"), Parent=node, Contents=cs, Resources=pdfgen.D(Font=pdfgen.D(F1=font))))
+            d.objects[node.n] = pdfgen.D(Type=pdfgen.N("Pages"), Parent=pages, Count=1, Kids=[pg], MediaBox=[0, 0, 300 + k, 400], Rotate=90 * (k % 4))
+            kids.append(node)
+        d.objects[2] = pdfgen.D(Type=pdfgen.N("Pages"), Count=K, Kids=kids)
+        d.objects[1] = pdfgen.D(Type=pdfgen.N("Catalog"), Pages=pages)
+        d.trailer = {b"Root": cat}
+        return d
+    for K in ([130] if quick else [99, 101, 130, 300]):
+        doc = many_nodes(K)
+        p = os.path.join(wd, "manynodes%d.pdf" % K)
+        open(p, "wb").write(pdfgen.write_classic(doc)[0])
+        inputs.append(("manynodes%d" % K, p, "generated-many-nodes", {(n, 0): v for n, v in doc.objects.items()}, dict(doc.trailer)))
     # the same kind of documents in every input file FORM (C03's file-structure generator, which carries its own ground truth):
     # classic tables with subsections, xref streams with predictors and filter chains, object streams, hybrid files, incremental
     # updates with replaced / freed / re-used numbers at non-zero generations, junk before the header, odd white space
@@ -155,6 +177,9 @@ def run(chk):
     jobs = []
     for inp in inputs:
         use = cfgs if (inp[2] == "generated" or not quick) else rng.sample(cfgs, 5 if inp[2] == "corpus" else 10)
+        if inp[2] == "generated-many-nodes":
+            use = [["--linearize", "--object-streams=generate"], ["--linearize"], ["--object-streams=generate"],
+                   ["--linearize", "--object-streams=generate", "--compress-streams=n"]]
         for cfg in use:
             jobs.append((inp, cfg))
 
